@@ -29,6 +29,20 @@ CHECKS = {
         "Trusted: rational window model derived from the statement (cycle and margin taken as the float products minutes*60); 1 us tolerance band at boundaries and at margin ~ slot (either regime accepted there).",
         "DESIGN.md 3 C12, A.8",
     ),
+    "C02": (
+        "exploration",
+        "schedule search with a deterministic scheduler (bounded-preemption DFS for 2 actors, PCT + seeded random for 3-4) over claim/run scenarios; history invariant from a monitor replayed through the lifecycle model",
+        "Pollers (get_invocations_to_run + run) and releasing actors (retry, pending-recovery task, kill-and-reroute) run as actors of a scheduler that owns the interleaving at source-line (Mem) / SQL-statement (SQLite) granularity; every explored execution's log of accepted transitions must be a run of the reference lifecycle model (no claim without release, no move of an owned invocation by a non-owner), every yielded id must match a claim, task bodies must not overlap without kill/recovery.",
+        "Trusted: scheduler stand-ins for threading/sqlite busy-wait/clock (DESIGN 2.1); exhaustive only for 2 actors with <= 1 (thorough 2) forced switches up to the stated run limit; preemption inside a line/statement not modelled.",
+        "DESIGN.md 3 C02, 2.1, A.2",
+    ),
+    "C10": (
+        "exploration",
+        "schedule search (same engine/scenarios as C02) with history writers as free actors + Hypothesis request sequences; oracle = harness-side log of successful transitions",
+        "After every explored execution (claims, retries, reroutes, kills, recoveries; single and batch registration) the stored history, ordered by change time, must equal the monitor's log: same statuses in order, the runner that made each change, first REGISTERED, last = current status, a path of the documented graph, nothing stored under a foreign id.",
+        "Trusted: monitor wrappers on the app instance; ticking virtual clock (unique change times).",
+        "DESIGN.md 3 C10",
+    ),
 }
 
 NOT_YET = "check not built yet in this session (work in progress, see DESIGN.md section 3)"
